@@ -46,7 +46,7 @@ def Heap.new (h : Heap) (sz : Nat) : Heap :=
 
 /-- `::operator delete(b)` -/
 def Heap.del (h : Heap) (b : Nat) : Heap :=
-  { next := h.next, live := h.live.filter (fun p => p.1 ≠ b), dels := h.dels ++ [b], log := h.log ++ [HEv.del b] }
+  { next := h.next, live := h.live.filter (fun p => p.1 != b), dels := h.dels ++ [b], log := h.log ++ [HEv.del b] }
 
 /-- `::operator delete(p)` where `p` may be `nullptr` -/
 def Heap.delOpt (h : Heap) : Option Nat → Heap
@@ -214,7 +214,7 @@ def stepFree (s : State) (id : Nat) : State × Res :=
   match s.frames.find? (fun f => f.id == id) with
   | none => ({ s with ok := false }, Res.bad)
   | some f =>
-      (release { s with frames := s.frames.filter (fun g => g.id ≠ id), died := s.died ++ [id] } f, Res.free id)
+      (release { s with frames := s.frames.erase f, died := s.died ++ [id] } f, Res.free id)
 
 def stepNewobj (s : State) : State × Res :=
   match s.cfg.pol with
